@@ -24,25 +24,32 @@ def run(rep):
     rep.rule = ("Validate.tla (PlusCal) models one conversion request - entry point (library convert(validate=True), CLI plain, --json, --skip_validate, --odk_validate, "
                 "--json --skip_validate) x valid/invalid form x validator outcome (exit 0 silent, exit 0 with stderr, exit 1|2 with diagnostics, exit 3 with arbitrary stderr, exit 255 silent, killed by SIGKILL|SIGTERM, java "
                 "absent, corrupt jar) x output file pre-existing or not x external choices or not - as the steps of the code (parse, create temp file, write, check java, "
-                "run validator, classify, finally-unlink, write outputs, report) over an abstract file system. TLC checks 8 invariants on all 624 configurations. Every "
+                "run validator, classify, finally-unlink, write outputs, report) over an abstract file system. TLC checks 8 invariants on all 672 configurations. Every "
                 "configuration is then executed against the real code in a private directory tree with a scripted stand-in java first on PATH; TLC (Trace_Validate) runs "
                 "the machine from the same configuration and requires the observed terminal facts (temp-dir residue, output path state and content, itemsets.csv, exception "
                 "class / JSON code, surfaced stderr, validator saw the file, cleaned diagnostics) to equal the machine's terminal state.")
     rep.assumptions = ["the validator is replaced by a shell script selected through PATH (check_xform only needs `java` on PATH)",
                        "'validator killed': only the no-residue clause is demanded (the code accepts the form with a 'Bad return code' warning)",
-                       "the 100 s watchdog timeout is not exercised"]
+                       "the 100 s watchdog (a validator that hangs) is executed in the thorough tier only, 8 configurations; like 'killed' it is judged on the no-residue clause, "
+                       "the code's answer (accepted with a 'took to long' warning) is the transcription and a difference is reported as watchdog_drift"]
     cfg = corpus._cfg("MC_Validate.cfg", "SPECIFICATION Spec\n" + "".join(f"INVARIANT {i}\n" for i in INVS) + "CHECK_DEADLOCK FALSE\n")
     r = tlc.model_check("Validate", cfg, workers=4, required_actions=("Parse", "CreateTmp", "RunValidator", "Classify", "Finally", "WriteOutput", "Report"), tag="mcval")
     if r["violation"]:
         raise tlc.MachineryError(f"Validate invariant {r['violation']} violated on the model")
-    rep.add_mc(r, "Validate: all 624 configurations, 8 invariants")
+    rep.add_mc(r, "Validate: all 672 configurations, 8 invariants")
     rep.exhaustive = True
     cases, g = tlc.generate("Gen_Validate", corpus._cfg("Gen_Validate.cfg", "SPECIFICATION Spec\nCONSTRAINT Emit\nCHECK_DEADLOCK FALSE\n"), tag="genval")
     rep.bounds["configurations"] = len(cases)
+    # a validator that hangs costs 100 s of wall time per execution (the real watchdog): thorough tier only, validating entries, no pre-existing file
+    hang = [c for c in cases if c["vout"] == "hang"]
+    cases = [c for c in cases if c["vout"] != "hang"]
+    hang = [c for c in hang if rep.tier != "quick" and c["form"] == "valid" and not c["pre"] and c["entry"] in ("lib", "cli_plain", "cli_json", "cli_odk")]
+    rep.bounds["hang_configurations_executed"] = len(hang)
     if rep.tier == "quick":
         # ext only matters when a file is written; keep every (entry, form, vout, pre) and both ext values for the accepting outcomes
         cases = [c for c in cases if c["ext"] or not c["pre"] or c["vout"] in ("reject", "ok_stderr", "reject_bytes", "ok_stderr_bytes")]
-    outs = conv.map_cases(_run, [{"cfg": c} for c in cases], chunksize=2)
+    outs = conv.map_cases(_run, [{"cfg": c} for c in hang + cases], chunksize=1 if hang else 2)
+    rep.extra["watchdog_drift"] = [o["cfg"] for o in outs if o.get("cfg", {}).get("vout") == "hang" and not (o["trace"][1]["exc"] == "none" and o["trace"][1]["warn_timeout"])]
     for o in outs:
         if o.get("status") == "harness_error":
             raise tlc.MachineryError(o["message"] + "\n" + o.get("tb", ""))
